@@ -55,3 +55,70 @@ Print Assumptions C15_label_renaming.
 Print Assumptions C15_comment_line.
 Print Assumptions C15_lines_irrelevant.
 Print Assumptions C15_named_type_constants.
+
+(* ------------------------------------------------------------------------------------------------------------
+   Extension (second round): theorems from Lemmas/{WalkLemmas,OutputLemmas,TypeExec,NoMiss2,ParseLemmas2,PaddingLemmas}.v *)
+From Coq Require Import List String NArith ZArith Bool Arith.
+From Tealer Require Import Tables Leaves LeafPrelude Syntax Parse Cfg StackAst Keys Analysis Domains Detect Group Output Runs Eval Exec InsExec Paths WalkLemmas OutputLemmas TypeExec NoMiss2 ParseLemmas2 PaddingLemmas.
+
+(* stack-neutral padding (checked by neutral_pad over the regenerated arities) inserted between statements: the operand trees of all other instructions are the same up to the shift of positions *)
+Theorem C15_padding :
+  forall (P1 PAD P2 : prog) (prepos postpos : list nat) (ast : list (nat * instr * list sval)),
+       neutral_pad (map i_op PAD) = true ->
+       emulate (P1 ++ P2) (prepos ++ postpos) nil = Some ast ->
+       exists astpad : list (nat * instr * list sval),
+         emulate (P1 ++ PAD ++ P2)
+           (map (shift_pos (Datatypes.length P1) (Datatypes.length PAD)) prepos ++
+            seq (Datatypes.length P1) (Datatypes.length PAD) ++ map (shift_pos (Datatypes.length P1) (Datatypes.length PAD)) postpos) nil =
+         Some
+           (map (shift_entry (shift_pos (Datatypes.length P1) (Datatypes.length PAD))) (firstn (Datatypes.length prepos) ast) ++
+            astpad ++ map (shift_entry (shift_pos (Datatypes.length P1) (Datatypes.length PAD))) (skipn (Datatypes.length prepos) ast)) /\
+         map StackLemmas.pos_of astpad = seq (Datatypes.length P1) (Datatypes.length PAD).
+Proof. exact @padding_emulate. Qed.
+
+(* ... hence every asserted / branched-on condition is the same tree up to the shift *)
+Theorem C15_padding_conditions :
+  forall (P1 PAD P2 : prog) (prepos postpos : list nat) (ast ast' : list (nat * instr * list sval)),
+       neutral_pad (map i_op PAD) = true ->
+       emulate (P1 ++ P2) (prepos ++ postpos) nil = Some ast ->
+       emulate (P1 ++ PAD ++ P2)
+         (map (shift_pos (Datatypes.length P1) (Datatypes.length PAD)) prepos ++
+          seq (Datatypes.length P1) (Datatypes.length PAD) ++ map (shift_pos (Datatypes.length P1) (Datatypes.length PAD)) postpos) nil = 
+       Some ast' ->
+       forall (k : nat) (v : sval) (rest : list sval),
+       args_of ast k = Some (v :: rest) ->
+       exists v' : sval,
+         args_of ast' (shift_pos (Datatypes.length P1) (Datatypes.length PAD) k) =
+         Some (v' :: map (shift_sval (shift_pos (Datatypes.length P1) (Datatypes.length PAD))) rest) /\
+         v' = shift_sval (shift_pos (Datatypes.length P1) (Datatypes.length PAD)) v /\
+         cond_of v' = shift_cond (shift_pos (Datatypes.length P1) (Datatypes.length PAD)) (cond_of v).
+Proof. exact @padding_cond_of. Qed.
+
+Theorem C15_neutral_pad_sufficient :
+  forall (p : prog) (ops : list instr) (a : nat),
+       neutral_pad ops = true ->
+       (forall j : nat, j < Datatypes.length ops -> op_at p (a + j) = nth_error ops j) ->
+       forall st : sstack,
+       exists r : list (nat * instr * list sval),
+         emulate p (seq a (Datatypes.length ops)) st = Some r /\
+         map StackLemmas.pos_of r = seq a (Datatypes.length ops) /\
+         (forall rest : list nat, emulate p (seq a (Datatypes.length ops) ++ rest) st = option_map (app r) (emulate p rest st)).
+Proof. exact @neutral_pad_sufficient. Qed.
+
+(* `dup; pop` is NOT a meaning-preserving pad for the tool: it replaces the value beneath by a dup node (the checker rejects it) *)
+Theorem C15_dup_pop_is_not_neutral_refuted :
+  exists ast ast' : list (nat * instr * list sval),
+         emulate (ex_P1 ++ ex_P2) (0 :: 1 :: nil) nil = Some ast /\
+         emulate (ex_P1 ++ ex_PAD_dup ++ ex_P2) (0 :: 1 :: 2 :: 3 :: nil) nil = Some ast' /\
+         args_of ast 1 = Some (SKnown (IInt (IANum 1)) 0 nil 0 :: nil) /\
+         args_of ast' (shift_pos 1 2 1) = Some (SKnown i_dup 1 (SKnown (IInt (IANum 1)) 0 nil 0 :: nil) 0 :: nil) /\
+         args_of ast' (shift_pos 1 2 1) <> option_map (map (shift_sval (shift_pos 1 2))) (args_of ast 1) /\
+         (forall v v' : sval,
+          args_of ast 1 = Some (v :: nil) ->
+          args_of ast' (shift_pos 1 2 1) = Some (v' :: nil) -> cond_of v' <> shift_cond (shift_pos 1 2) (cond_of v)).
+Proof. exact @dup_pop_padding_refuted. Qed.
+
+Print Assumptions C15_padding.
+Print Assumptions C15_padding_conditions.
+Print Assumptions C15_neutral_pad_sufficient.
+Print Assumptions C15_dup_pop_is_not_neutral_refuted.
